@@ -8,6 +8,7 @@ import os
 import z3
 
 from pyvc.vals import Val, NONE, S, B, I as IV, K, LAT, TYP, sub, SeqV, Str, BASE, fresh, truthy, num, is_num, is_exc, St, Unsupported
+from specs.util import accumulator, carried_constants
 from pyvc.engine import Exec, Bound
 from pyvc import engine as _eng
 from pyvc.repo import Repo
@@ -196,13 +197,14 @@ def run_comparison(props=None):
         if not isinstance(n, ast.For):
             return None
         t_it, t_id = n.target.elts[0].id, n.target.elts[1].id
+        cnt = accumulator(ex_, s0, 'Counter', 'counter')
 
         def bind(s, done, x):
             s.setvar(t_it, IV(z3.Length(done) + 1)); s.setvar(t_id, x)
 
         def havoc_state(s):
             s.g['yids'] = fresh('yids', SeqV); s.g['ybase'] = len(s.g['yielded'])
-            c = s.lookup('counter'); s.set_dcontents(c, fresh('cd', z3.ArraySort(Val, z3.BoolSort())), fresh('cm', z3.ArraySort(Val, Val)))
+            s.set_dcontents(cnt, fresh('cd', z3.ArraySort(Val, z3.BoolSort())), fresh('cm', z3.ArraySort(Val, Val)))      # the statistics Counter (by role)
 
         def inv(s, done):
             return yids_now(s) == done
@@ -339,7 +341,10 @@ def within_worker(mode='dedicated', props=None):
 
         def inv(s):
             p = s.rd(selfv, '_compare_process')
-            return z3.And(T(s.g, s.g['cur']), s.lookup('timed_out') == B(True), Val.is_ref(p))
+            # a flag that is constant at loop entry still has that value at the loop head (an iteration that changes it leaves the loop):
+            # stated for whatever loop-carried flag the code has, not for a local of a particular name
+            return z3.And(T(s.g, s.g['cur']), Val.is_ref(p), *[s.lookup(k_) == c_ for k_, c_ in flags])
+        flags = carried_constants(s0, n)
         return dict(havoc=[], havoc_state=havoc_state, inv=inv, name='loop.await')
     spec.loop = loop
     paths = ex.block(node.body, st)
@@ -373,7 +378,10 @@ def within_worker(mode='dedicated', props=None):
             obl.append(Obl('C08/%s/exc/is_ordinary_exception' % U, ('C08', 'C13'), s, is_exc(oc[1]), oc))
             forgot = s.rd(selfv, '_compare_process') == NONE
             killfail = ('kill-failed',) in s.events
-            obl.append(Obl('C13/%s/exc/worker_forgotten_only_if_dead_or_killed' % U, 'C13', s,
+            # C08 "later recordings are unaffected": a dispatch fails only on account of THIS recording's replay -- after its task was handed to a
+            # worker -- never while preparing the worker (which would then fail for every later recording too)
+            obl.append(Obl('C08/%s/exc/fails_only_after_the_task_was_dispatched' % U, ('C08', 'C13'), s, z3.BoolVal(any(ev[0] == 'put' for ev in s.events)), oc))
+            obl.append(Obl('C13/%s/exc/worker_forgotten_only_if_dead_or_killed' % U, ('C13', 'C08'), s,
                            z3.Implies(z3.And(forgot, z3.BoolVal(not killfail)), z3.Or(s.g['w'] == DEAD, s.g['w'] == NONE_W)), oc))
             obl.append(Obl('C13/%s/exc/failed_worker_is_forgotten_so_the_next_dispatch_creates_a_fresh_one' % U, 'C13', s,
                            z3.Implies(z3.BoolVal(any(ev[0] == 'put' for ev in s.events) and not s.g['tagof']), forgot), oc))
